@@ -121,6 +121,21 @@ func checkC15(c C15Case) Result {
 			}
 			r.Evals++
 			got := toDiags(res.Val.(hcl.Diagnostics))
+			// a block whose key attribute has no static value: its dependent body cannot be resolved,
+			// so nothing directly inside it may be reported as unexpected
+			if forbidden := refmodel.UnexpectedForbidden(p.Schema, body); len(forbidden) > 0 {
+				r.Class("dep-key-without-static-value")
+				for _, g := range got {
+					if !strings.HasPrefix(g.Summary, "Unexpected") {
+						continue
+					}
+					for _, rg := range forbidden {
+						if g.Start == rg.Start && g.End == rg.End {
+							r.Fail("diagnostics:unexpected-in-unresolvable-block", "ValidateFile(%s) reports %q at %d-%d inside a block whose dependency key attribute has no static value (the dependent body cannot be resolved there)\n%s", f.Name, g.Summary, g.Start, g.End, clip(f.Text, 1200))
+						}
+					}
+				}
+			}
 			ws, gs := filterDiags(want, ignore, dontCare...), filterDiags(got, ignore, dontCare...)
 			perFile[f.Name] = filterDiags(got, nil)
 			if len(ignore) > 0 {
